@@ -374,6 +374,9 @@ def rule_r8_text(ctx: Ctx) -> None:
         def __exit__(self, *a: Any) -> None:
             return None
 
+        def close(self) -> None:
+            return None
+
     base = R._hook(ctx, dd.module, [])
 
     def hook(e: ast.expr, f: Any) -> Any:
